@@ -59,9 +59,11 @@ def run(harnesses, timeout_each=1500):
         env = dict(os.environ, CARGO_NET_OFFLINE='true', CARGO_TARGET_DIR=target_dir)
         groups = {}
         for h in harnesses:
-            groups.setdefault(h.get('tests', False), []).append(h)
-        for is_tests, hs in groups.items():
+            groups.setdefault((h.get('tests', False), h.get('features', '')), []).append(h)
+        for (is_tests, feats), hs in groups.items():
             cmd = ['cargo', 'kani', '--output-format', 'terse']
+            if feats:
+                cmd += ['--features', feats]
             if is_tests:
                 cmd.append('--tests')
             for h in hs:
